@@ -237,6 +237,19 @@ Definition route_cached (cache : option group) (c : cfg) (p : point) : option (g
   | Some g => match route_in c g p with Some s => Some (g, s) | None => None end
   end.
 
+(* CreateShardGroup when no writable group takes the timestamp: a live group [trunc(t,d), +d) is added (the catalogue is
+   kept sorted by the real code; the position does not matter for the lookup of t because no other writable group
+   contains t) *)
+Definition new_group (gid : N) (t d : Z) (shards : list shard) (alive : list nat) : group :=
+  {| g_id := gid; g_start := fst (span_of t d); g_end := snd (span_of t d); g_deleted := false; g_trunc := None;
+     g_shards := shards; g_alive := alive |}.
+Definition ensure_group (c : cfg) (t : Z) (gid : N) (shards : list shard) (alive : list nat) : cfg :=
+  match find_group (c_groups c) t with
+  | Some _ => c
+  | None => {| c_mst := c_mst c; c_tagkeys := c_tagkeys c; c_sk := c_sk c; c_typ := c_typ c; c_dur := c_dur c;
+               c_groups := c_groups c ++ [new_group gid t (c_dur c) shards alive]; c_mstidx := c_mstidx c |}
+  end.
+
 (* ------------------------------------------------------------------ several measurements, shard-key history, batches *)
 (* a measurement: its configuration (c_sk is a placeholder) and MeasurementInfo.ShardKeys as (ShardGroup threshold, key) *)
 Record mcfg := { m_cfg : cfg; m_vers : list (N * list str) }.
